@@ -277,7 +277,7 @@ if __name__ == "__main__":
     if what == "all":
         print(overlay("plain"))
         print(overlay("asan"))
-        for v in ("plain", "asan", "avi0", "aviP"):
+        for v in ("plain", "asan", "avi0", "aviP", "tsan", "sched"):
             print(kernel_lib(v))
         print(deps_dir())
     elif what == "overlay":
